@@ -203,7 +203,11 @@ func TestVerifGrantsReplay(t *testing.T) {
 			if err != nil {
 				return
 			}
-			c.Close()
+			go func(c net.Conn) { // a private service: whoever is proxied to it reads its banner
+				c.Write([]byte("PRIVATE-SERVICE-BANNER\n"))
+				time.Sleep(50 * time.Millisecond)
+				c.Close()
+			}(c)
 		}
 	}()
 	idents := map[string]*vfIdent{}
@@ -346,6 +350,19 @@ func TestVerifGrantsReplay(t *testing.T) {
 						detail = "no answer: " + err.Error()
 					}
 					ct.Close()
+				case "pfdata":
+					// a port-forwarding DATA tube opened directly: it is proxied only if a forwarding was authorized before
+					dt, err := vs.cmux.CreateReliableTube(common.PFTube)
+					if err != nil {
+						detail = "tube creation failed"
+						break
+					}
+					b, err := vfReadTimeout(dt, 8, 1500*time.Millisecond)
+					started = err == nil && string(b) == "PRIVATE-"
+					if err != nil {
+						detail = "no banner: " + err.Error()
+					}
+					dt.Close()
 				case "issue":
 					at, err := vs.cmux.CreateReliableTube(common.AuthGrantTube)
 					if err != nil {
